@@ -1791,11 +1791,21 @@ where
                         return events;
                     }
                     topic_alias_validated = true;
-                    let store_packet = packet
+                    // (the copy with the full topic can exceed the largest Remaining Length)
+                    let store_packet = match packet
                         .clone()
                         .remove_topic_alias_add_topic(topic_opt.unwrap())
-                        .unwrap()
-                        .set_dup(true);
+                    {
+                        Ok(p) => p.set_dup(true),
+                        Err(_) => {
+                            events.push(GenericEvent::NotifyError(MqttError::PacketTooLarge));
+                            if self.pid_man.is_used_id(packet_id) {
+                                self.pid_man.release_id(packet_id);
+                                events.push(GenericEvent::NotifyPacketIdReleased(packet_id));
+                            }
+                            return events;
+                        }
+                    };
                     self.store.add(store_packet.try_into().unwrap()).unwrap();
                 } else {
                     // Topic name is not empty, remove topic alias if present
@@ -1866,7 +1876,11 @@ where
             // The rewritten packet must still fit the peer's maximum packet size; otherwise
             // the packet is sent as given (it passed the size check above).
             let size_limit = self.maximum_packet_size_send as usize;
-            if self.auto_map_topic_alias_send {
+            // (a packet at the largest Remaining Length has no room for the 3-byte alias property)
+            let room_for_alias = packet.size() + 3 <= 1 + 4 + 268_435_455;
+            if !room_for_alias {
+                // sent as given
+            } else if self.auto_map_topic_alias_send {
                 if let Some(ref mut topic_alias_send) = self.topic_alias_send {
                     if let Some(found_ta) = topic_alias_send.find_by_topic(packet.topic_name()) {
                         trace!(
